@@ -228,7 +228,6 @@ theorem wants_eq (p : Policy σ) (o : Outcome) (ra : Nat) :
 
 /-! ### one pass, seen through `wants` -/
 
-abbrev R : Variant := Variant.repaired
 
 /-- The state carried into the next pass: the middleware's result, then the hooks last-to-first. -/
 def nextState (p : Policy σ) (mw : Nat → σ → σ × W) (o : Outcome) (ra : Nat) (st : σ) : σ :=
